@@ -421,7 +421,31 @@ def w_bool(failure, tier):
     return dict(found=False, note='boolean matcher: %d random query trees (depth <= 3) over 16 documents agree with the documented semantics' % len(queries))
 
 
+# ---------------------------------------------------------------- U9 cursor strings
+def w_cursor(failure, tier):
+    """arbitrary cursor strings through IndexReader::search (score cursors and sort cursors): must be Ok or Err, never a panic"""
+    docs = [{"_id": "d%d" % i, "body": "alpha beta"} for i in range(4)]
+    schema = None
+    cands = ['', 'zz', '0' * 42, 'g' * 42, 'A\u00e9' + 'A' * 39, '\u00e9' * 21, 'A' * 41 + '\u00e9'[:1], '0' * 41 + '\u20ac'[:1], '\u20ac' * 14,
+             'A\u00e9A', '\u00e9\u00e9', 'ab\u00e9c', '7b7d', '0' * 40 + '\u00e9']
+    reqs = []
+    meta = []
+    for c in cands:
+        reqs.append(dict(REQ_BASE, query="alpha", limit=1, cursor=c)); meta.append(('score cursor', c))
+        reqs.append(dict(REQ_BASE, query="alpha", limit=1, cursor=c, sort=[{"field": "_score", "order": "asc"}])); meta.append(('sort cursor', c))
+    out, err = drive_search({"schema": schema, "batches": [docs], "requests": reqs})
+    if out is None:
+        return dict(found=False, note='search driver failed: %s' % err)
+    for (kind, c), o in zip(meta, out):
+        if 'panic' in o:
+            return dict(found=True, cmd='%s search <<< hex(json)' % BIN, input='search request with %s %r (%d bytes)' % (kind, c, len(c.encode())),
+                        observed='PANIC ' + o['panic'][:300], expected='Ok or Err: a search never panics on any cursor string')
+    return dict(found=False, note='cursor decoding: %d cursor strings x 2 cursor kinds through IndexReader::search, none panics' % len(cands))
+
+
 GENERATORS = {
+    ('U9', 'decode_hex'): w_cursor,
+    ('U9', 'hex_decode'): w_cursor,
     ('U11', 'search'): w_phrase,
     ('U10', 'matches_node'): w_bool,
     ('U2', 'replay_slice'): w_replay,
